@@ -262,6 +262,30 @@ fn run_known(args: &Args) -> Report {
         });
         rep.known.push(("F-C03-4".into(), r == "cannot_be_a_base=false path_segments_is_none=true", r));
     }
+    // open findings shared by C02/C03/C05/C06: each is replayed for every property it is listed under
+    let wit = |rep: &mut Report, id: &str, props: &[&str], start: &str, op: Op, bad: &(dyn Fn(&Url) -> bool + std::panic::RefUnwindSafe)| {
+        if !props.contains(&prop.as_str()) {
+            return;
+        }
+        let start_s = start.to_string();
+        let opc = op.clone();
+        let r = std::panic::catch_unwind(std::panic::AssertUnwindSafe(|| {
+            let mut u = Url::parse(&start_s).unwrap();
+            let _ = opc.apply(&mut u);
+            u
+        }));
+        match r {
+            Ok(u) => rep.known.push((id.to_string(), bad(&u), format!("{} -> {} -> {}", start, op.kind(), u.as_str()))),
+            Err(_) => rep.known.push((id.to_string(), true, format!("{} -> {} -> panic", start, op.kind()))),
+        }
+    };
+    wit(&mut rep, "F-C03-5", &["C02", "C03", "C06"], "non-spec:/.//double",
+        Op::SetIpHost(std::net::IpAddr::V4(std::net::Ipv4Addr::new(127, 0, 0, 1))),
+        &|u| u.as_str() == "non-spec://127.0.0.1/.//double" && u.path() == "//double");
+    wit(&mut rep, "F-C02-3", &["C02", "C03", "C05", "C06"], "about:blank", Op::SetPath("#f".into()),
+        &|u| u.as_str() == "about:#f" && u.fragment().is_none());
+    wit(&mut rep, "F-C02-2", &["C02", "C03", "C06"], "a://host//x", Op::SetHost(None), &|u| u.as_str() == "a://x");
+    wit(&mut rep, "F-C02-8", &["C02", "C03", "C06"], "a:/p", Op::SetPath("//x".into()), &|u| u.as_str() == "a://x");
     rep
 }
 
